@@ -110,7 +110,7 @@ def make_judges(ctx):
         else:
             tfmt = R.fmt_policy(ai.sizing, fx, fy)
             way += '+' + ai.sizing + ('+const' if (ai.x is None or ai.y is None) else '')
-        if tfmt[1] < 1 or tfmt[1] > 53:
+        if tfmt[1] < 1 or tfmt[1] > 63:
             ctx.skip('arith:degenerate or wide target format')
             return
         target_unsigned_for_signed = (ai.out is not None or ai.out_like is not None) and (not tfmt[0]) and (fx[0] or fy[0])
@@ -212,7 +212,8 @@ def make_judges(ctx):
 
 def floors(tier):
     return [('way', w) for w in ('out', 'out_like', 'same', 'largest', 'smallest', 'same+const')] + [('method', 'raw'), ('method', 'repr')] + \
-           [('unary', u) for u in ('__neg__', '__pos__', '__abs__')] + [('unary-config',)]
+           [('unary', u) for u in ('__neg__', '__pos__', '__abs__')] + [('unary-config',)] + \
+           [('wide-target-at-the-limit', m) for m in ('raw', 'repr')] + [('integer-operand-large-constant', m) for m in ('raw', 'repr')]
 
 
 # ------------------------------------------------------------------------------------------ workload
@@ -379,6 +380,32 @@ def run_case(case, ctx):
             x.config.const_op_sizing = csz
             _try(lambda: oper(x, cc))
             _try(lambda: oper(cc, x))
+    # 4. targets of 54..63 bits in which the exact result lands exactly one code above the upper limit (limits that are not doubles), both methods
+    if (i // 12) % 4 == 0:
+        wt = rng.randint(54, 63)
+        for st in (True, False):
+            tf = (st, wt, wt - 2 if st else wt - 2)
+            one = Fxp(1.0 if st else 2.0, st, 4, 1, op_method=method, rounding=rx)
+            for ov in ('saturate', 'wrap'):
+                _try(lambda: fm.add(one, one, out=Fxp(None, tf[0], tf[1], tf[2], overflow=ov), method=method))
+                _try(lambda: fm.mul(one, Fxp(2.0, st, 4, 1), out_like=Fxp(None, tf[0], tf[1], tf[2], overflow=ov), method=method))
+                _try(lambda: fm.sub(one, Fxp(-1.0 if st else 0.0, True, 4, 1), out=Fxp(None, True, wt, wt - 2, overflow=ov), method=method))
+        ctx.floor_hit(('wide-target-at-the-limit', method))
+    # 5. operands holding integers (built from python ints, no fraction bits) with integer constants of 2^51 .. 2^62: the value method must not wrap
+    if (i // 12) % 4 == 1:
+        wi = rng.choice([8, 12])
+        si = rng.random() < 0.5
+        lo_i, hi_i = R.code_range(si, wi)
+        ci = rng.choice([hi_i, lo_i if si else hi_i - 1, (hi_i + 1) // 2, rng.randint(lo_i, hi_i)])
+        big = rng.choice([1, -1]) * (2 ** rng.randint(51, 61) + rng.choice([0, 0, 2 ** 20, 1]))
+        for pol in ('best', 'same'):
+            for ov in ('saturate', 'wrap'):
+                xi = Fxp(int(ci), si, wi, 0, op_method=method, op_input_size=pol, overflow=ov)
+                _try(lambda: xi * big)
+                _try(lambda: big * xi)
+                _try(lambda: xi + big)
+                _try(lambda: xi - big)
+        ctx.floor_hit(('integer-operand-large-constant', method))
     x = mkx()
     x += mky()
     x = mkx()
